@@ -62,7 +62,12 @@ def run_search(tid, cands, profile, winner, fn, hint, total=None, with_means=Fal
     try:
         with warnings.catch_warnings():
             warnings.simplefilter("ignore")
-            res = core.with_time_limit(5, compute_raire_assertions, contest, cvrs, winner, f, False)
+            # (one search in eight keeps the search log, into a buffer: the logged path is the same search)
+            if (len(profile) + total + len(tid)) % 8 == 0:
+                import io
+                res = core.with_time_limit(5, compute_raire_assertions, contest, cvrs, winner, f, True, io.StringIO())
+            else:
+                res = core.with_time_limit(5, compute_raire_assertions, contest, cvrs, winner, f, False)
         out = []
         if any(a is None for a in res):
             raise NoAssertionInResult(f"result {res!r}")
